@@ -777,6 +777,11 @@ class Checker(object):
 
     def violation(self, hist, i, key, desc, expected, observed):
         cfg = self.cfg
+        seen = self.part.__dict__.setdefault('_c17_keys', set())
+        if key in seen:            # one replayable case per key and worker is enough (core keeps one per key)
+            return
+        seen.add(key)
+        hist = hist[:i + 1]
         case = {'config': cfg.as_json(), 'ops': [list(o) for o in hist], 'step': i,
                 'expected': expected, 'observed': observed}
         self.part.violation(key, '%s | setup=%s files=%s ops=%s' % (
@@ -814,9 +819,9 @@ class Checker(object):
                 r = self.cmp_cache[ck] = diff_obs(exp, obs, st.mask)
             diffs, dev = r
             if diffs:
-                f, e, g, cls = diffs[0]
-                es, gs = short(self.root, e), short(self.root, g)
                 only_enum = all(d[0].endswith('.enumerate_versions') for d in diffs)
+                f, e, g, cls = diffs[0] if only_enum else [d for d in diffs if not d[0].endswith('.enumerate_versions')][0]
+                es, gs = short(self.root, e), short(self.root, g)
                 self.violation(hist, i, 'query|%s' % cls if only_enum else 'lazy|%s' % cls if lazy else
                                'state|%s|%s|%s' % (oc, rc, cls),
                                'after %s (%s): %s expected %s, observed %s' % (op_text(op), o.reason, f, es, gs), es, gs)
@@ -865,7 +870,8 @@ class Checker(object):
                 state = verdict[1]
         if status != 'exit 0' or len(steps) < len(hist):
             i = min(len(steps), len(hist) - 1)
-            self.violation(hist, i, 'crash|%s|%s' % (op_text(hist[i]), status),
+            lazy = any((op[0] in ('r', 'm') and op[-1]) or (op[0] == 'q' and op[4]) for op in hist[:i + 1])
+            self.violation(hist, i, ('lazy|crash %s' % status) if lazy else 'crash|%s|%s' % (op_class(hist[i]), status),
                            'driver child died (%s) while executing %s' % (status, op_text(hist[i])), 'exit 0', status)
 
 
@@ -1055,8 +1061,14 @@ def run(ctx):
                  'compared as MUST, unspecified = edges the statement does not fix (executed, crash-checked only). '
                  'non-trivial = every MUST edge' % len(MENU),
             bounds=bounds)
+    found = []
     for r in pmap(_work, rotate(jobs, ctx.seed)):
+        found.extend(r.pop('violations'))
         ctx.merge(r)
+    # simplest first, independent of the dispatch order: fewest files, shortest history
+    found.sort(key=lambda v: (len(v[2]['config']['files']), len(v[2]['ops']), v[0], repr(v[2])))
+    for v in found:
+        ctx.violation(*v)
     ctx.assumptions += [
         'glibshim headers declare the GLib ABI correctly; GOBJECT_INTROSPECTION_LIBDIR=/nonexistent/lib so only d1,d2,d3 matter',
         'dependency graphs are DAGs over A->B, A->C, B->C (the compiler cannot produce cycles from GIRs it can compile)',
